@@ -56,3 +56,11 @@ Theorem C14_tetri_running_refuted : exists I a x pl,
   pl_task pl = tt_id x /\ feasible (conv_sim_grid I) (to_pinst I) (pl :: plan_of (readback I a)).
 Proof. exact running_refuted. Qed.
 Print Assumptions C14_tetri_running_refuted.
+
+(* F14-nonsink: in whole-graph mode only sink tasks carry reward; the all-unplaced assignment Gurobi returns is
+   OPTIMAL although the non-sink task can be added under the formulation's own convention *)
+Theorem C14_tetri_nonsink_refuted : exists I a x pl,
+  wf_inst I /\ optimal I a /\ In x (free_tasks I) /\ rewarded_fb I x = false /\ readback_task I a x = None /\
+  pl_task pl = tt_id x /\ feasible (conv_tetri I) (to_pinst I) (pl :: plan_of (readback I a)).
+Proof. exact nonsink_refuted. Qed.
+Print Assumptions C14_tetri_nonsink_refuted.
